@@ -123,6 +123,9 @@ def two_origin_task(pt):
 
 
 def judge(case):
+    if case.get('pysched'):
+        from .. import pysched  # pylint: disable=import-outside-toplevel
+        return pysched.judge(case)
     if case.get('two_origins'):
         part = two_origin_task(case['point'])
         return [(k, v[0]) for k, v in part.violations.items()]
@@ -133,5 +136,15 @@ def explore(ctx):
     labcommon.explore_lab(ctx, PID, 1, 2)
     for part in pmap(two_origin_task, two_origin_points()):
         ctx.merge(part)
-    ctx.rule = RULE
+    # SCHEDULES of the generator: a 'create' build and an 'import' build in two Python threads - each gets the
+    # facilities of ITS origin
+    from .. import pysched  # pylint: disable=import-outside-toplevel
+    specs = [{'point': dict(M.BASE_POINT), 'cfg_a': {'fac': 'create'}, 'cfg_b': {'fac': 'import'}, 'shared': False}]
+    if ctx.thorough:
+        specs += [{'point': M.mc_base_point(), 'cfg_a': {'fac': 'create'}, 'cfg_b': {'fac': 'import'}, 'shared': True, 'every': 97}]
+    for part in pmap(pysched.pair_task, pysched.pair_jobs(specs, 16)):
+        ctx.merge(part)
+    ctx.rule = RULE + ('; plus a create build and an import build in two Python threads: every one-preemption schedule '
+                       '(preemption at the first and last execution of every distinct library line; roles swapped) must '
+                       'give each build the output of its own origin')
     ctx.min_outcomes = 2
